@@ -181,8 +181,21 @@ def _run(seed):
 
 def search(seed, tier, obligation, hints):
     n = 120 if tier == "quick" else 1500
-    return drivers.search_seeds([], _run, range(seed * 100000, seed * 100000 + n), {"driver": "whole runs (sim.run_seed) with run-level clauses"})
+    r = drivers.search_seeds([], _run, range(seed * 100000, seed * 100000 + n), {"driver": "whole runs (sim.run_seed) with run-level clauses"})
+    if r.get("found"):
+        return r
+    # batches that mix own and foreign orders (the scripted agents of the random runs never spoof)
+    from . import spoof
+    r2 = spoof.search(seed, tier, obligation, hints)
+    if r2.get("found"):
+        r2["input"] = {"spoof": r2["input"]}
+        return r2
+    r["cases"] = r.get("cases", 0) + r2.get("cases", 0)
+    return r
 
 
 def replay(inp):
+    if "spoof" in inp:
+        from . import spoof
+        return spoof.replay(inp["spoof"])
     return drivers.replay_seed([], _run, inp["seed"])
